@@ -72,6 +72,21 @@ CHECKS = {
             'Rendering never raises, is stable (twice, and for an independent second failure), and contains in nesting order '
             'every path component, leaf expectation, offending value, cause message, missing/unexpected/duplicate field.',
             'section 7 C08'),
+    'C10': ('explicit TLA+ state machines of the converter cache (heap of addresses, liveness, pins, 4-step lookups by 2 '
+            'threads: PaneCache.tla) and of the LRU mode (PaneLRU.tla), TLC exhaustive; TLC-simulated behaviours replayed with '
+            'real short-lived type objects / threads / a real KeyCache; recorded outcomes and recorded LRU states validated by TLC',
+            'Design level: Transparent/CacheSound hold for the pinned design on all interleavings within the bound, and TLC must '
+            'find the id-reuse counterexample for the unpinned design (cross-check that the model understands the defect). '
+            'Code level: histories with real del/gc and address reuse, every completed lookup probed behaviourally and judged by '
+            'the history-free semantics; LRU: after every step the recency list, full flag, call count and results of the real '
+            'object are compared with the model step function.', 'section 7 C10'),
+    'C20': ('explicit TLA+ spec of the five styles (Canon) and a model of the shipped splitter/joiners (PaneRename.tla), TLC '
+            'exhaustive over all identifiers in the bound; every enumerated name plus seeded random longer ones replayed through '
+            'rename_field and class-level rename=, results validated by the TLC trace spec',
+            'Canonical spelling, idempotence, recovery by snake, injectivity (left inverse) for all identifiers of 1-3 words of '
+            '2-3 letters over a 2-letter alphabet (thorough: 1-2 words, 2-4 letters, 3 letters), all strings up to length 5/6 '
+            'over {a,b,_,-} for refusal of unsplittable names, 4k/60k random identifiers up to 6 words x 12 letters.',
+            'section 7 C20'),
 }
 
 NOT_YET = 'check not built yet (work in progress; see DESIGN.md section 12 build order)'
